@@ -278,6 +278,12 @@ def step (g : Group) (ws : List String) : Group × String :=
   match ws with
   | "rx" :: idx :: rest => rxStep g idx rest
   | ["hs", idx, cfg, req, end_] => (g, hsStep idx cfg req end_)
+  -- an upgrade request delivered in pieces: whether the handshake parser let it through is the environment's choice
+  -- (`a` / `r`, recorded); a rejected one is a failed handshake whatever its path
+  | ["hs", idx, cfg, req, end_, outcome] =>
+    if outcome == "a" then (g, hsStep idx cfg req end_)
+    else if outcome == "r" then (g, hsStep idx "/no-such-configured-path" req end_)
+    else (g, idx ++ " bad-op")
   | ["hsrun", idx, nrej, nacc] =>
     -- nrej failed handshakes (each: `handshakeFail`, no hook), then nacc accepted connections, each its own run of the model
     let (nrej, nacc) := (natOf nrej, natOf nacc)
